@@ -269,6 +269,9 @@ func (c *Collection) CreateIndex(indexName, columnName string, fn func(r Reader)
 	index := newIndex(indexName, columnName, fn)
 	c.lock.Lock()
 	index.Grow(uint32(c.opts.Capacity))
+	if size := uint32(len(c.fill)) << 6; size > 0 {
+		index.Grow(size - 1) // cover every existing chunk, commits do not grow indexes
+	}
 	c.cols.Store(indexName, index)
 	c.cols.Store(columnName, column, index)
 	c.lock.Unlock()
@@ -279,10 +282,12 @@ func (c *Collection) CreateIndex(indexName, columnName string, fn func(r Reader)
 	buffer := commit.NewBuffer(c.Count())
 	reader := commit.NewReader()
 	for chunk := commit.Chunk(0); int(chunk) < chunks; chunk++ {
+		c.slock.Lock(uint(chunk)) // no commit may touch the chunk while it is indexed
 		if column.Snapshot(chunk, buffer) {
 			reader.Seek(buffer)
 			index.Apply(chunk, reader)
 		}
+		c.slock.Unlock(uint(chunk))
 	}
 
 	return nil
@@ -320,10 +325,12 @@ func (c *Collection) CreateSortIndex(indexName, columnName string) error {
 	buffer := commit.NewBuffer(c.Count())
 	reader := commit.NewReader()
 	for chunk := commit.Chunk(0); int(chunk) < chunks; chunk++ {
+		c.slock.Lock(uint(chunk)) // no commit may touch the chunk while it is indexed
 		if column.Snapshot(chunk, buffer) {
 			reader.Seek(buffer)
 			index.Apply(chunk, reader)
 		}
+		c.slock.Unlock(uint(chunk))
 	}
 
 	return nil
